@@ -616,7 +616,10 @@ pub fn run(tier: Tier, args: &[String]) -> i32 {
     let rep = Reporter::new("C11", tier);
     let depth: usize = mc_kit::arg_value(args, "--depth")
         .and_then(|s| s.parse().ok())
-        .unwrap_or(tier.pick(5, 6));
+        .unwrap_or(tier.pick(4, 5));
+    let deep: usize = mc_kit::arg_value(args, "--deep")
+        .and_then(|s| s.parse().ok())
+        .unwrap_or(depth + 1);
     let max_out: usize = mc_kit::arg_value(args, "--max-out")
         .and_then(|s| s.parse().ok())
         .unwrap_or(usize::MAX);
@@ -641,7 +644,7 @@ pub fn run(tier: Tier, args: &[String]) -> i32 {
     }
     let eq = equality(&rep);
     let limit = tier.pick(50.0, 800.0);
-    let (nodes, st, replays, with_http) = explore_tree(depth, max_out, r, limit * 0.5, Some(&rep));
+    let (nodes, st, replays, with_http) = explore_tree(depth, max_out, r, limit * 0.4, Some(&rep));
     let complete = !st.cut_by_deadline;
     // K fresh processes
     let exe = std::env::current_exe().expect("current_exe");
@@ -719,6 +722,14 @@ pub fn run(tier: Tier, args: &[String]) -> i32 {
             proc_results.push(json!({"process": i, "histories": theirs.len(), "differing": diffs}));
         }
     }
+    // second layer: the next depth (the depth of C09's exploration in this tier), every history
+    // executed on fresh cores twice in this process - its prefix steps are re-executed by every
+    // extension anyway - under what is left of the budget
+    let left = (limit - rep.elapsed()).max(2.0);
+    let (deep_nodes, deep_st, deep_replays, _) = explore_tree(deep, max_out, 2, left, Some(&rep));
+    let deep_complete = !deep_st.cut_by_deadline;
+    let deep_count = deep_nodes.len();
+    drop(deep_nodes);
     if with_http < 2 {
         mc_kit::machinery_error("C11: fewer than 2 histories with an HTTP request were explored");
     }
@@ -727,12 +738,16 @@ pub fn run(tier: Tier, args: &[String]) -> i32 {
     let coverage = json!({
         "states": st.nodes,
         "transitions": st.nodes.saturating_sub(1),
-        "traces_validated_against_impl": replays + compared,
-        "evaluations": replays + compared + eq.evaluations,
+        "traces_validated_against_impl": replays + compared + deep_replays,
+        "evaluations": replays + compared + deep_replays + eq.evaluations,
         "distinct_nontrivial": with_http,
         "rule": "a history that contains an HTTP request with several headers (menu events Http: 6 headers, Legacy: 2 headers + content-type), the place where a seeded hash order can reach the wire",
         "exhaustive": complete && procs_done == k,
+        "exhaustive_note": "refers to layer 1 (depth_bound, R in-process replays and K processes); layer 2 is reported separately",
         "depth_bound": depth,
+        "layer_2": {"depth_bound": deep, "histories": deep_count, "in_process_executions_per_history": 2,
+                    "in_process_replays_total": deep_replays, "subprocesses": 0, "completed": deep_complete,
+                    "nodes_by_depth": deep_st.nodes_by_depth},
         "histories": st.nodes,
         "nodes_by_depth": st.nodes_by_depth,
         "in_process_replays_per_history (R)": r,
